@@ -12,9 +12,6 @@ import (
 	"time"
 
 	"github.com/boz/kcache"
-	"github.com/boz/kcache/types/pod"
-	"github.com/boz/kcache/types/service"
-	corev1 "k8s.io/api/core/v1"
 	metav1 "k8s.io/apimachinery/pkg/apis/meta/v1"
 	"k8s.io/apimachinery/pkg/watch"
 	"kverif/kv"
@@ -118,126 +115,6 @@ func untypedSide(ctx context.Context, log *kv.Log, srv *kv.Server) (*typedSide, 
 		}}, nil
 }
 
-func podSide(ctx context.Context, log *kv.Log, srv *kv.Server) (*typedSide, error) {
-	c, err := pod.BuildController(ctx, log, srv)
-	if err != nil {
-		return nil, err
-	}
-	sub, err := c.Subscribe()
-	if err != nil {
-		return nil, err
-	}
-	ml := &cbLog{}
-	desc := func(o *corev1.Pod) string {
-		if o == nil {
-			return kv.Obj{Kind: "nil"}.Sx()
-		}
-		return kv.Describe(o).Sx()
-	}
-	h := pod.BuildHandler().
-		OnInitialize(func(objs []*corev1.Pod) { ml.add(kv.L("init", objsSx(objs, nil))) }).
-		OnCreate(func(o *corev1.Pod) { ml.add(kv.L("create", desc(o))) }).
-		OnUpdate(func(o *corev1.Pod) { ml.add(kv.L("update", desc(o))) }).
-		OnDelete(func(o *corev1.Pod) { ml.add(kv.L("delete", desc(o))) }).Create()
-	if _, err := pod.NewMonitor(c, h); err != nil {
-		return nil, err
-	}
-	lazy, err := c.Subscribe()
-	if err != nil {
-		return nil, err
-	}
-	lazyDrain := func() (string, bool) {
-		var parts []string
-		for {
-			select {
-			case e, ok := <-lazy.Events():
-				if !ok {
-					return kv.L(parts...), true
-				}
-				parts = append(parts, kv.L(string(e.Type()), desc(e.Resource())))
-			default:
-				return kv.L(parts...), false
-			}
-		}
-	}
-	return &typedSide{ready: c.Ready(), done: c.Done(), closefn: c.Close, mon: ml, lazyDrain: lazyDrain,
-		list: func() string { return objsSx(c.Cache().List()) },
-		drain: func() string {
-			var parts []string
-			for {
-				select {
-				case e, ok := <-sub.Events():
-					if !ok {
-						return kv.L(parts...)
-					}
-					parts = append(parts, kv.L(string(e.Type()), desc(e.Resource())))
-				default:
-					return kv.L(parts...)
-				}
-			}
-		}}, nil
-}
-
-func serviceSide(ctx context.Context, log *kv.Log, srv *kv.Server) (*typedSide, error) {
-	c, err := service.BuildController(ctx, log, srv)
-	if err != nil {
-		return nil, err
-	}
-	sub, err := c.Subscribe()
-	if err != nil {
-		return nil, err
-	}
-	ml := &cbLog{}
-	desc := func(o *corev1.Service) string {
-		if o == nil {
-			return kv.Obj{Kind: "nil"}.Sx()
-		}
-		return kv.Describe(o).Sx()
-	}
-	h := service.BuildHandler().
-		OnInitialize(func(objs []*corev1.Service) { ml.add(kv.L("init", objsSx(objs, nil))) }).
-		OnCreate(func(o *corev1.Service) { ml.add(kv.L("create", desc(o))) }).
-		OnUpdate(func(o *corev1.Service) { ml.add(kv.L("update", desc(o))) }).
-		OnDelete(func(o *corev1.Service) { ml.add(kv.L("delete", desc(o))) }).Create()
-	if _, err := service.NewMonitor(c, h); err != nil {
-		return nil, err
-	}
-	lazy, err := c.Subscribe()
-	if err != nil {
-		return nil, err
-	}
-	lazyDrain := func() (string, bool) {
-		var parts []string
-		for {
-			select {
-			case e, ok := <-lazy.Events():
-				if !ok {
-					return kv.L(parts...), true
-				}
-				parts = append(parts, kv.L(string(e.Type()), desc(e.Resource())))
-			default:
-				return kv.L(parts...), false
-			}
-		}
-	}
-	return &typedSide{ready: c.Ready(), done: c.Done(), closefn: c.Close, mon: ml, lazyDrain: lazyDrain,
-		list: func() string { return objsSx(c.Cache().List()) },
-		drain: func() string {
-			var parts []string
-			for {
-				select {
-				case e, ok := <-sub.Events():
-					if !ok {
-						return kv.L(parts...)
-					}
-					parts = append(parts, kv.L(string(e.Type()), desc(e.Resource())))
-				default:
-					return kv.L(parts...)
-				}
-			}
-		}}, nil
-}
-
 func runTypedScenario(t *testing.T, tr *tracer, idx int, seed uint64) {
 	synctest.Test(t, func(t *testing.T) {
 		reseed(seed, idx) // the library's own randomness (ticker fuzz) follows the scenario's seed
@@ -249,13 +126,14 @@ func runTypedScenario(t *testing.T, tr *tracer, idx int, seed uint64) {
 				time.Sleep(time.Duration(1+n%700) * time.Microsecond)
 			}
 		}}
-		kind := []string{"pod", "service"}[idx%2]
+		kind := typedKinds[idx%len(typedKinds)]
 		srv := kv.NewServer()
 		srv.Kind, srv.Mixed = kind, true
 		ctx, cancel := context.WithCancel(context.Background())
 		tr.line(kv.L("scenario", fmt.Sprint(idx), "typed"))
 		tr.line(kv.L("tstart", kind))
-		kinds := []string{kind, kind, kind, "secret", map[string]string{"pod": "service", "service": "pod"}[kind]}
+		// two foreign types next to the own one
+		kinds := []string{kind, kind, kind, typedKinds[(idx+5)%len(typedKinds)], typedKinds[(idx+7)%len(typedKinds)]}
 		overflow := idx%4 == 3
 		if overflow {
 			// only the own type, and more events than a buffer holds: an unread typed subscription must keep and
@@ -265,7 +143,7 @@ func runTypedScenario(t *testing.T, tr *tracer, idx int, seed uint64) {
 		change := func() {
 			k := kv.Pick(r, kinds)
 			// distinct names per kind: the untyped cache is keyed by namespace/name only
-			ns, name := kv.Pick(r, []string{"a", "b"}), k[:2]+kv.Pick(r, []string{"x", "y"})
+			ns, name := kv.Pick(r, []string{"a", "b"}), k+"-"+kv.Pick(r, []string{"x", "y"})
 			cur, ok := srv.Get(ns + "/" + name)
 			o := kv.Obj{Kind: k, NS: ns, Name: name, Labels: kv.Pick(r, treeLabels)}
 			tt := watch.Added
@@ -286,12 +164,7 @@ func runTypedScenario(t *testing.T, tr *tracer, idx int, seed uint64) {
 		if err != nil {
 			t.Fatal(err)
 		}
-		var ty *typedSide
-		if kind == "pod" {
-			ty, err = podSide(ctx, log, srv)
-		} else {
-			ty, err = serviceSide(ctx, log, srv)
-		}
+		ty, err := typedSides[kind](ctx, log, srv)
 		if err != nil {
 			t.Fatal(err)
 		}
